@@ -67,6 +67,7 @@ type Item struct {
 	T  string    `json:"t"`            // produce produce_i produce_empty headers data restart
 	NE bool      `json:"ne,omitempty"` // produce, produce_i: the sequencer hands out transactions
 	N  int       `json:"n,omitempty"`  // produce_empty: number of attempts in a row without transactions
+	P  int       `json:"p,omitempty"`  // produce, produce_i with NE: 0 = a fresh transaction list never seen before, k >= 1 = the k-th list of a small fixed pool (the SAME transactions as every other block with that k)
 	SC []Outcome `json:"sc,omitempty"` // headers / data: DA answers, then cancellation
 	At []Inject  `json:"at,omitempty"` // produce_i: submission iterations run inside the attempt
 }
@@ -187,6 +188,7 @@ func genHistory(r *rand.Rand, maxLen int) (uint64, uint64, []Item) {
 			h = append(h, it)
 		}
 	}
+	poolPayloads(r, h)
 	return init, limit, h
 }
 
@@ -277,6 +279,137 @@ func genInterleaved(r *rand.Rand) (uint64, uint64, []Item) {
 			it.T, it.At = "produce_i", genInjects(r, limit)
 		}
 		h = append(h, it)
+	}
+	poolPayloads(r, h)
+	return init, limit, h
+}
+
+// payloads: in half of the histories the blocks with transactions take their transaction list from a pool of 1..3
+// fixed lists (each with probability 2/3, else a fresh list), so that blocks at different heights carry EQUAL
+// transaction lists (equal Data.Hash / DACommitment: whatever is keyed by them is shared between the heights).
+func poolPayloads(r *rand.Rand, h []Item) {
+	if r.Intn(2) == 0 {
+		return
+	}
+	pool := 1 + r.Intn(3)
+	for i := range h {
+		if (h[i].T == "produce" || h[i].T == "produce_i") && h[i].NE && r.Intn(3) > 0 {
+			h[i].P = 1 + r.Intn(pool)
+		}
+	}
+}
+
+// the k-th transaction list of the pool (k >= 1): fixed bytes, the same in every case and at every height
+func poolTxs(k int) [][]byte {
+	txs := [][]byte{[]byte(fmt.Sprintf("heartbeat-%d", k))}
+	if k%2 == 0 {
+		txs = append(txs, []byte("tick"))
+	}
+	return txs
+}
+
+// repeated-payload stream: limits 1..3, DA layer healthy, blocks whose transaction list EQUALS that of an earlier
+// block (a heartbeat transaction in every block; A, B, A; the last L blocks all equal to one already on the DA
+// layer), each followed by idle tails (attempts without transactions) with rounds of both submission iterations.
+// A block is a block: what an earlier height with the same transactions went through must not count for this one
+// (anything memoised by data hash / DA commitment — skipping, marking, counting — shows here and nowhere else,
+// because every other stream's non-empty blocks are pairwise different).
+func genRepeat(r *rand.Rand, idx int) (uint64, uint64, []Item) {
+	init := []uint64{1, 1, 1, 2, 5}[r.Intn(5)]
+	limit := []uint64{1, 2, 3}[r.Intn(3)]
+	if idx < 3 {
+		init, limit = 1, uint64(idx+1)
+	}
+	var h []Item
+	pair := func() {
+		if r.Intn(2) == 0 {
+			h = append(h, Item{T: "headers", SC: acceptAll()}, Item{T: "data", SC: acceptAll()})
+		} else {
+			h = append(h, Item{T: "data", SC: acceptAll()}, Item{T: "headers", SC: acceptAll()})
+		}
+	}
+	ne := func(p int) { h = append(h, Item{T: "produce", NE: true, P: p}) }
+	idle := func(n int) {
+		for j := 0; j < n; j++ {
+			pair()
+			h = append(h, Item{T: "produce"})
+		}
+	}
+	h = append(h, Item{T: "produce"}) // the stored genesis block
+	shape := r.Intn(4)
+	if idx < 3 {
+		shape = 0
+	}
+	switch shape {
+	case 0: // a heartbeat transaction in every block; the submission loops run after every block or after every L
+		per := 1
+		if r.Intn(2) == 0 {
+			per = int(limit)
+		}
+		for j, k := 0, int(limit)+2+r.Intn(3); j < k; j++ {
+			ne(1)
+			if (j+1)%per == 0 {
+				pair()
+			}
+		}
+	case 1: // A, B, A (B from the pool or fresh), the loops keeping up, then the last L blocks all equal to A
+		ne(1)
+		pair()
+		ne([]int{0, 2}[r.Intn(2)])
+		pair()
+		for j := uint64(0); j < limit; j++ {
+			ne(1)
+		}
+	case 2: // the first block's list comes back after some blocks of other lists and empty blocks
+		ne(1)
+		if r.Intn(2) == 0 {
+			pair()
+		}
+		for j, k := 0, 1+r.Intn(3); j < k; j++ {
+			if r.Intn(3) == 0 {
+				h = append(h, Item{T: "produce"})
+			} else {
+				ne([]int{0, 2, 3}[r.Intn(3)])
+			}
+			pair()
+		}
+		for j, k := uint64(0), 1+uint64(r.Intn(int(limit))); j < k; j++ {
+			ne(1)
+		}
+	default: // any mix over a pool of two lists, empty blocks and fresh lists, the loops mostly keeping up
+		for j, k := 0, 3+r.Intn(5); j < k; j++ {
+			switch x := r.Intn(10); {
+			case x < 6:
+				ne(1 + r.Intn(2))
+			case x < 8:
+				ne(0)
+			default:
+				h = append(h, Item{T: "produce"})
+			}
+			if r.Intn(3) > 0 {
+				pair()
+			}
+		}
+	}
+	if r.Intn(5) == 0 {
+		h = append(h, Item{T: "restart"})
+	}
+	// tail: idle chain, or more of the same list, or fresh lists — with rounds against the accepting DA layer
+	switch r.Intn(3) {
+	case 0:
+		idle(2 + int(limit) + r.Intn(2))
+	case 1:
+		for j, k := 0, 2+int(limit); j < k; j++ {
+			pair()
+			ne(1)
+		}
+		idle(2)
+	default:
+		for j, k := 0, 1+int(limit); j < k; j++ {
+			pair()
+			ne(0)
+		}
+		idle(1 + r.Intn(2))
 	}
 	return init, limit, h
 }
@@ -838,6 +971,7 @@ type caseResult struct {
 	nRefused   int
 	nExhausted int
 	nProduced  int
+	nRepeat    int // blocks whose transaction list equals that of an earlier block of the chain
 	stale      bool // an interleaved attempt was refused on a count that an iteration inside it made out of date
 	nStale     int
 	nInterRef  int
@@ -919,7 +1053,8 @@ func runCase(seed int64, c int, init, limit uint64, hist []Item, rootDir string)
 	}
 	// one production attempt; returns whether it was refused.  The oracle's facts are read from the store
 	// and the DA double lazily (only on a refusal: a refused attempt changes nothing they depend on).
-	attempt := func(i int, wantNE bool, inj []Inject, io *itemOut) bool {
+	seenTxs := map[string]bool{}
+	attempt := func(i int, wantNE bool, pay int, inj []Inject, io *itemOut) bool {
 		before := w.height()
 		interleaved := inj != nil
 		var nwait0, first0 uint64
@@ -943,7 +1078,9 @@ func runCase(seed int64, c int, init, limit uint64, hist []Item, rootDir string)
 				io.late = a.pend
 			}()
 		}
-		if wantNE {
+		if wantNE && pay > 0 {
+			w.seq.next = poolTxs(pay)
+		} else if wantNE {
 			n := 1 + r.Intn(3)
 			var txs [][]byte
 			for j := 0; j < n; j++ {
@@ -970,6 +1107,13 @@ func runCase(seed int64, c int, init, limit uint64, hist []Item, rootDir string)
 				res.nInterProd++
 			}
 			res.chain = append(res.chain, w.nonEmpty(before+1))
+			if _, d, ok := w.committed(before + 1); ok && len(d.Txs) > 0 {
+				k := string(d.DACommitment())
+				if seenTxs[k] {
+					res.nRepeat++
+				}
+				seenTxs[k] = true
+			}
 			return false
 		case before:
 		default:
@@ -1038,7 +1182,7 @@ func runCase(seed int64, c int, init, limit uint64, hist []Item, rootDir string)
 		switch it.T {
 		case "produce":
 			io := itemOut{coqItem: "IProduce " + vgen.Bool(it.NE)}
-			if attempt(i, it.NE, nil, nil) {
+			if attempt(i, it.NE, it.P, nil, nil) {
 				io.res = 1
 			}
 			if res.err != nil {
@@ -1052,7 +1196,7 @@ func runCase(seed int64, c int, init, limit uint64, hist []Item, rootDir string)
 			if inj == nil {
 				inj = []Inject{}
 			}
-			if attempt(i, it.NE, inj, &io) {
+			if attempt(i, it.NE, it.P, inj, &io) {
 				io.res = 1
 			}
 			if res.err != nil {
@@ -1089,7 +1233,7 @@ func runCase(seed int64, c int, init, limit uint64, hist []Item, rootDir string)
 				if j > 0 {
 					k = -1 // only the first attempt of the stretch comes right after the preceding iterations
 				}
-				if attempt(k, false, nil, nil) {
+				if attempt(k, false, 0, nil, nil) {
 					io.res++
 				}
 				if res.err != nil {
@@ -1258,6 +1402,7 @@ func TestVerif(t *testing.T) {
 		hist        []Item
 		boundary    bool
 		inter       bool
+		repeat      bool
 	}
 	var jobs []job
 	if e.Replay != "" {
@@ -1289,6 +1434,10 @@ func TestVerif(t *testing.T) {
 		for c := 0; c < e.N/3; c++ {
 			jobs = append(jobs, job{seed: e.Seed, c: 2000000 + c, inter: true})
 		}
+		// the repeated-payload stream: N/6 cases on top
+		for c := 0; c < e.N/6; c++ {
+			jobs = append(jobs, job{seed: e.Seed, c: 3000000 + c, repeat: true})
+		}
 		for c := 0; c < e.N; c++ {
 			jobs = append(jobs, job{seed: e.Seed, c: c})
 		}
@@ -1307,6 +1456,9 @@ func TestVerif(t *testing.T) {
 		} else if hist == nil && j.inter {
 			init, limit, hist = genInterleaved(caseRng(j.seed, j.c))
 			res.Count("stream:interleaving")
+		} else if hist == nil && j.repeat {
+			init, limit, hist = genRepeat(caseRng(j.seed, j.c), j.c-3000000)
+			res.Count("stream:repeated-payloads")
 		} else if hist == nil {
 			init, limit, hist = genHistory(caseRng(j.seed, j.c), maxLen)
 		}
@@ -1362,6 +1514,10 @@ func TestVerif(t *testing.T) {
 		res.Distribution["da-calls"] += cr.ncalls
 		res.Distribution["produce:refused"] += cr.nRefused
 		res.Distribution["produce:produced"] += cr.nProduced
+		res.Distribution["block:with-txs-equal-to-an-earlier-block"] += cr.nRepeat
+		if cr.nRepeat > 0 {
+			res.Count("chain:with-repeated-transaction-lists")
+		}
 		res.Distribution["iteration:gave-up-after-30-attempts"] += cr.nExhausted
 		res.Distribution["interleaved-attempt:produced"] += cr.nInterProd
 		res.Distribution["interleaved-attempt:refused"] += cr.nInterRef
@@ -1404,7 +1560,7 @@ func TestVerif(t *testing.T) {
 		}
 	}
 	res.Distinct = len(distinct)
-	res.Rule = "real aggregator Manager (NewManager, real store/signer/publishBlockInternal) with MaxPendingHeadersAndData L in {1,2,3,10} and initial height in {1 (3/7), 2, 5, 12, 1000}; block mix per case: all-empty, all non-empty, 50% or 25% non-empty (the block at the initial height is always the stored genesis block, empty); histories of 4..maxLen items: bursts of 1..L+1 production attempts, single header / data submission iterations through the hooks (body of HeaderSubmissionLoop / DataSubmissionLoop), restarts (NewManager on the same datastore); every DA call answered truthfully from a script: accept all (40%), outage of 1..5 answers then acceptance, outage of 30..65 answers (> maxSubmitAttempts), outage until the context ends, acceptance of 1..3 blobs at a time, context cancelled at once; 80% of histories end with 2..2L+3 rounds of (header iteration, data iteration in either order against an accepting DA layer, then one production attempt) on which resumption / no-deadlock is judged; after every such pair of iterations no committed block may be left waiting; refusal-justified and limit-enforced are judged at every production attempt; plus a size-boundary stream (2 cases per run, 3 per thorough shard): limit in {255,256,257,300,1000}, idle stretches of 255/256/257/600 attempts without transactions in a row (run-length item IProduceEmptyN, expanded inside Coq) before / between blocks with transactions, DA layer healthy, 3..5 closing rounds, same oracles; INTERLEAVED attempts (item produce_i: 1/8 of the attempts of the general histories, plus an interleaving stream of N/3 cases: limit in {1,2,3,4,10}, bursts of L-1..L+1 blocks with the header loop keeping up and the data loop lagging, then 1..3 attempts with submission iterations inside, restarts, closing rounds): the store handed to the Manager is wrapped and at chosen store calls of publishBlockInternal (reads of numPendingHeaders / numPendingData / getPending, the fetches and watermark steps of numWaitingData, the calls of block building up to SetHeight) 1..2 header / data iterations (70% against an accepting DA layer, else any script) run synchronously before the call proceeds, or a header iteration at every call of numWaitingData's window; the point is classified from the call stack and handed to the model as a ThrottleConc.sched; oracle for such an attempt: a refusal needs L blocks waiting when the attempt BEGAN (it may be out of date when it returns), a refused attempt with an accepted header and data iteration inside leaves nothing waiting, and any later refusal with fewer than L blocks waiting is reported as refused-again-after-stale-refusal; all in synctest bubbles (virtual time); non-trivial = at least one block produced, one refusal and one DA call; distinct = distinct (initial height, limit, model history) terms"
+	res.Rule = "real aggregator Manager (NewManager, real store/signer/publishBlockInternal) with MaxPendingHeadersAndData L in {1,2,3,10} and initial height in {1 (3/7), 2, 5, 12, 1000}; block mix per case: all-empty, all non-empty, 50% or 25% non-empty (the block at the initial height is always the stored genesis block, empty); histories of 4..maxLen items: bursts of 1..L+1 production attempts, single header / data submission iterations through the hooks (body of HeaderSubmissionLoop / DataSubmissionLoop), restarts (NewManager on the same datastore); every DA call answered truthfully from a script: accept all (40%), outage of 1..5 answers then acceptance, outage of 30..65 answers (> maxSubmitAttempts), outage until the context ends, acceptance of 1..3 blobs at a time, context cancelled at once; 80% of histories end with 2..2L+3 rounds of (header iteration, data iteration in either order against an accepting DA layer, then one production attempt) on which resumption / no-deadlock is judged; after every such pair of iterations no committed block may be left waiting; refusal-justified and limit-enforced are judged at every production attempt; plus a size-boundary stream (2 cases per run, 3 per thorough shard): limit in {255,256,257,300,1000}, idle stretches of 255/256/257/600 attempts without transactions in a row (run-length item IProduceEmptyN, expanded inside Coq) before / between blocks with transactions, DA layer healthy, 3..5 closing rounds, same oracles; INTERLEAVED attempts (item produce_i: 1/8 of the attempts of the general histories, plus an interleaving stream of N/3 cases: limit in {1,2,3,4,10}, bursts of L-1..L+1 blocks with the header loop keeping up and the data loop lagging, then 1..3 attempts with submission iterations inside, restarts, closing rounds): the store handed to the Manager is wrapped and at chosen store calls of publishBlockInternal (reads of numPendingHeaders / numPendingData / getPending, the fetches and watermark steps of numWaitingData, the calls of block building up to SetHeight) 1..2 header / data iterations (70% against an accepting DA layer, else any script) run synchronously before the call proceeds, or a header iteration at every call of numWaitingData's window; the point is classified from the call stack and handed to the model as a ThrottleConc.sched; oracle for such an attempt: a refusal needs L blocks waiting when the attempt BEGAN (it may be out of date when it returns), a refused attempt with an accepted header and data iteration inside leaves nothing waiting, and any later refusal with fewer than L blocks waiting is reported as refused-again-after-stale-refusal; PAYLOADS: a block with transactions carries either a fresh random transaction list (1..3 txs) or, in half of the general and interleaving histories with probability 2/3 per block, one of a pool of 1..3 FIXED lists, so that blocks at different heights have equal transaction lists (equal Data.Hash / DACommitment); plus a repeated-payload stream of N/6 cases (the first three: limit 1, 2, 3 with a heartbeat transaction in every block): limit in {1,2,3}, DA layer accepting, shapes: the same list in every block with the loops running after every block or every L blocks / A, B, A and then the last L blocks all equal to A / the first list coming back after other lists and empty blocks / any mix over a pool of two lists, fresh lists and empty blocks; then optionally a restart, and a tail of rounds (both iterations against the accepting DA layer, one attempt): an idle chain of L+2..L+3 empty blocks, or L+2 more blocks of the same list, or L+1 fresh lists, then idle; the model identifies a block by empty / non-empty only (a repeated list is a block with transactions like any other) and the same comparison and oracles apply; all in synctest bubbles (virtual time); non-trivial = at least one block produced, one refusal and one DA call; distinct = distinct (initial height, limit, model history) terms"
 	res.Cases = len(cases)
 	header := "From Coq Require Import NArith List Bool.\nFrom Verif Require Import Model.Throttle Model.ThrottleConc Check.ThrottleCheck."
 	path := filepath.Join(e.Out, "cases_C08.v")
